@@ -7,7 +7,7 @@
     H_p_support / H_f0 / H_p00, re-checked numerically per explored grid by
     tools/props/C01.py (table obligations). *)
 From Dino Require Import Base.Ops Base.Sums Base.Inst Model.SHT Model.SHTFast Model.FourierR
-  Thm.SHT Thm.SHTFast Thm.FourierR Gen.GridTable.
+  Thm.SHT Thm.SHTFast Thm.FourierR Gen.GridTable Gen.Legendre Gen.DerivExprs Model.Legendre Thm.Legendre.
 From Coq Require Import Reals Qcanon Lra.
 Local Open Scope F_scope.
 
@@ -273,6 +273,112 @@ Proof.
   split; qc.
 Qed.
 
+(** *** associated_legendre.py inside the model (Model/Legendre.v; arithmetic regenerated from the
+    source into Gen/Legendre.v).  For EVERY field, every function [sq] standing for np.sqrt, every
+    node tables x, y = sqrt(1 - x^2), every number of nodes nx and all sizes: the facts about the
+    Legendre table that the transforms use are theorems about the recurrence of the code. *)
+Section C01_Legendre.
+  Context {F : Type} {o : Ops F} {Fc : FieldC o}.
+  Variable sq : F -> F.
+  Variable nx : nat.
+  Variables x y : nat -> F.
+
+  (** evaluate raises ValueError exactly for n_m > n_l; for 1 <= n_m <= n_l it runs through *)
+  Theorem C01_legendre_accepts n_m n_l :
+    (legendre_accepts n_m n_l = true <-> (n_m <= n_l)%nat) /\
+    (legendre_defined n_m n_l = true <-> (1 <= n_m)%nat /\ (n_m <= n_l)%nat).
+  Proof. split; [exact (legendre_accepts_spec n_m n_l) | exact (legendre_defined_spec n_m n_l)]. Qed.
+
+  (** support, exactly as the code zero-fills (no hypothesis): this is H_p_support *)
+  Theorem C01_legendre_support n_m n_l m i l :
+    (l < m)%nat \/ (n_l <= l)%nat \/ (n_m <= m)%nat -> legendre_evaluate sq nx x y n_m n_l m i l = 0.
+  Proof. exact (legendre_support sq nx x y n_m n_l m i l). Qed.
+
+  (** ... in the form the round-trip theorems consume it: basis.p[a] = evaluate(M, L, x)[|m(a)|] *)
+  Theorem C01_legendre_H_p_support M L :
+    H_p_support (modal_rows_real M) L nx (fun a j l => legendre_evaluate sq nx x y M L (mabs_real a) j l) mabs_real.
+  Proof. intros a j l _ _ _ Hlt. apply legendre_support. now left. Qed.
+
+  (** the triangular truncation of _evaluate_rhombus *)
+  Theorem C01_rhombus_triangle_zero n_l n_m k m i : (n_m <= n_l)%nat -> (i < nx)%nat ->
+    (n_l <= m + k)%nat \/ (n_m <= m)%nat -> rhombus_triangle sq nx x y n_l n_m k m i = 0.
+  Proof. exact (rhombus_triangle_zero sq nx x y n_l n_m k m i). Qed.
+
+  (** H_p00: the (0,0) function is the constant 1/sqrt(2) *)
+  Theorem C01_legendre_p00 n_m n_l i : (1 <= n_m)%nat -> (n_m <= n_l)%nat -> (i < nx)%nat ->
+    legendre_evaluate sq nx x y n_m n_l 0%nat i 0%nat = 1 / sq (1 + 1).
+  Proof. exact (legendre_p00 sq nx x y n_m n_l i). Qed.
+
+  (** parity (H_parity of the mirror-symmetry property): mirrored nodes, same cos(latitude) *)
+  Theorem C01_legendre_parity (x' y' : nat -> F) n_m n_l m i l :
+    (forall j, (j < nx)%nat -> x' j = - x j) -> (forall j, (j < nx)%nat -> y' j = y j) ->
+    (n_m <= n_l)%nat -> (i < nx)%nat ->
+    legendre_evaluate sq nx x' y' n_m n_l m i l = sgn (l - m) * legendre_evaluate sq nx x y n_m n_l m i l.
+  Proof. intros Hx Hy. exact (legendre_parity sq nx x y x' y' Hx Hy n_m n_l m i l). Qed.
+
+  (** three-term relation in the code's coefficients a, b *)
+  Theorem C01_legendre_three_term_ab n_m n_l m i l :
+    (n_m <= n_l)%nat -> (i < nx)%nat -> (m < n_m)%nat -> (m <= l)%nat -> (l + 1 < n_l)%nat ->
+    leg_a sq m (l + 1)%nat <> 0 ->
+    x i * legendre_evaluate sq nx x y n_m n_l m i l
+    = 1 / leg_a sq m (l + 1)%nat * legendre_evaluate sq nx x y n_m n_l m i (l + 1)%nat
+      + leg_b sq m (l + 1)%nat * (if Nat.ltb m l then legendre_evaluate sq nx x y n_m n_l m i (l - 1)%nat else 0).
+  Proof. exact (legendre_three_term_ab sq nx x y n_m n_l m i l). Qed.
+
+  (** ... and normalised: x p[m,l] = eps(m,l+1) p[m,l+1] + eps(m,l) p[m,l-1], where
+      eps(m,l)^2 = (l^2 - m^2)/(4 l^2 - 1) is the closed form of the derivative recurrence weights *)
+  Theorem C01_legendre_three_term_eps n_m n_l m i l :
+    (n_m <= n_l)%nat -> (i < nx)%nat -> (m < n_m)%nat -> (m <= l)%nat -> (l + 1 < n_l)%nat ->
+    leg_a sq m (l + 1)%nat * leg_b sq m (l + 2)%nat = 1 ->
+    x i * legendre_evaluate sq nx x y n_m n_l m i l
+    = leg_eps sq m (l + 1)%nat * legendre_evaluate sq nx x y n_m n_l m i (l + 1)%nat
+      + leg_eps sq m l * (if Nat.ltb m l then legendre_evaluate sq nx x y n_m n_l m i (l - 1)%nat else 0).
+  Proof. exact (legendre_three_term_eps sq nx x y n_m n_l m i l). Qed.
+
+  Theorem C01_legendre_eps_sq m l : (m <= l)%nat ->
+    sq (rad_b (llit m) (llit (l + 1 - m))) * sq (rad_b (llit m) (llit (l + 1 - m))) = rad_b (llit m) (llit (l + 1 - m)) ->
+    leg_eps sq m l * leg_eps sq m l = a2_expr 1 (lit l) (lit m).
+  Proof. exact (leg_eps_sq sq m l). Qed.
+
+  (** the radicands under the two square roots are reciprocal (so the hypothesis of the normalised form
+      is sqrt(1/t) * sqrt(t) = 1), and the remaining radicands are the intended ones *)
+  Theorem C01_legendre_radicands (m k t : F) :
+    (lit 4 * ((m + k) * (m + k)) - 1 <> 0 -> (m + k) * (m + k) - m * m <> 0 -> rad_a m k * rad_b m (k + 1) = 1) /\
+    rad_b m k = a2_expr 1 (m + k - 1) m /\
+    rad_diag m = 1 + 1 / ((1 + 1) * m) /\ rad_init = 1 + 1 :> F /\ leg_y2 t = 1 - t * t /\
+    gen_legendre_complete = true /\
+    (forall yy pp a b xx p1 p2 : F,
+       leg_diag_step sq m yy pp = - (sq (rad_diag m) * yy * pp) /\
+       leg_step a b xx p1 p2 = a * (xx * p1 - b * p2) /\ leg_init sq pp = pp + 1 / sq rad_init).
+  Proof.
+    split; [exact (rad_a_rad_b m k)|]. split; [exact (rad_b_eps2 m k)|]. split; [exact (rad_diag_spec m)|].
+    split; [exact rad_init_spec|]. split; [exact (leg_y2_spec t)|]. split; [exact gen_legendre_complete_ok|].
+    intros. apply leg_steps_spec.
+  Qed.
+End C01_Legendre.
+
+(** non-vacuity of the Legendre theorems over Qc: [sq] := identity (it satisfies the reciprocity
+    hypothesis, since the radicands are reciprocal), two nodes, n_m = 2, n_l = 3 *)
+Definition lx (i : nat) : Qc := exq [1#2; -1#3]%Q i.
+Definition ly (i : nat) : Qc := exq [3#5; 4#5]%Q i.
+Definition lxm (i : nat) : Qc := exq [-1#2; 1#3]%Q i.
+Definition lsq (t : Qc) : Qc := t.
+
+Example C01_legendre_nonvacuous :
+  legendre_defined 2 3 = true /\ legendre_defined 3 2 = false /\ legendre_defined 0 2 = false /\
+  leg_a lsq 1 2 * leg_b lsq 1 3 = 1 /\ leg_a lsq 1 2 <> 0 /\
+  legendre_evaluate lsq 2 lx ly 2 3 1%nat 0%nat 2%nat = Q2Qc (-9#8) /\
+  legendre_evaluate lsq 2 lxm ly 2 3 1%nat 0%nat 2%nat = Q2Qc (9#8) /\
+  legendre_evaluate lsq 2 lx ly 2 3 1%nat 0%nat 0%nat = 0 /\
+  lx 0%nat * legendre_evaluate lsq 2 lx ly 2 3 0%nat 0%nat 1%nat
+  = leg_eps lsq 0 2 * legendre_evaluate lsq 2 lx ly 2 3 0%nat 0%nat 2%nat
+    + leg_eps lsq 0 1 * legendre_evaluate lsq 2 lx ly 2 3 0%nat 0%nat 0%nat.
+Proof.
+  split. { vm_compute; reflexivity. } split. { vm_compute; reflexivity. } split. { vm_compute; reflexivity. }
+  split. { qc. } split. { intro H. discriminate H. }
+  split. { qc. } split. { qc. } split. { qc. } qc.
+Qed.
+
 Print Assumptions C01_sht_gram.
 Print Assumptions C01_sht_roundtrip.
 Print Assumptions C01_sht_roundtrip_bandlimited.
@@ -289,3 +395,14 @@ Print Assumptions C01_fourier_aliasing_R.
 Print Assumptions C01_normalization_literal.
 Print Assumptions C01_grid_table_resolves.
 Print Assumptions C01_hyps_satisfiable.
+Print Assumptions C01_legendre_accepts.
+Print Assumptions C01_legendre_support.
+Print Assumptions C01_legendre_H_p_support.
+Print Assumptions C01_rhombus_triangle_zero.
+Print Assumptions C01_legendre_p00.
+Print Assumptions C01_legendre_parity.
+Print Assumptions C01_legendre_three_term_ab.
+Print Assumptions C01_legendre_three_term_eps.
+Print Assumptions C01_legendre_eps_sq.
+Print Assumptions C01_legendre_radicands.
+Print Assumptions C01_legendre_nonvacuous.
